@@ -69,6 +69,19 @@ def mentions(t, sub) -> bool:
 def run(ctx):
     repo = ctx.repo
     from . import cachecoh
+    # ---- declared bounds reach the transforms as given: no truthiness defaulting on numbers (a bound of exactly 0 is a bound)
+    from .common import numeric_or_defaults
+    nd = []
+    n_scanned = 0
+    for f_ in repo.all_functions():
+        if f_.ident.split(":")[0] in ("aspire.transforms", "aspire.aspire") or f_.ident.startswith("aspire.flows"):
+            n_scanned += 1
+            nd += [(f_, n_, t_) for n_, t_ in numeric_or_defaults(f_)]
+    ctx.count("functions_scanned_for_numeric_or_defaults", n_scanned)
+    ctx.decide(not nd, "C03.attach", "package", loc_of(nd[0][0], nd[0][1]) if nd else "src/aspire",
+               "no number is defaulted with `or` on the way from the instance options to the transforms",
+               (f"{nd[0][0].ident}: `{nd[0][2]}` replaces a value of 0 by the default as well: a parameter bounded at exactly 0 is treated as unbounded there, gets no "
+                "bounded-to-unbounded map, and the proposal puts mass outside the declared bounds") if nd else "", disc="or-default")
     cachecoh.rule(ctx, "C03.stale", ("aspire.flows", "aspire.transforms"),
                   "the density returned with draws and the density evaluated at them disagree (or the Jacobian of the data transform is that of an earlier fit)")
     classes = flow_classes(repo)
@@ -306,6 +319,7 @@ MUTANTS += [
       "**kwargs,\n        )\n\n    def fit", "**kwargs,\n        )\n        self._log_prob_fn = jax.jit(lambda x: self._flow.log_prob(x))\n\n    def fit", "C03.stale"),
     M("density evaluation memoised on the argument only", _JF,
       "**kwargs,\n        )\n\n    def fit", "**kwargs,\n        )\n        self._log_prob_fn = functools.lru_cache(maxsize=8)(self._flow.log_prob)\n\n    def fit", "C03.stale"),
+    M("open interval ends defaulted with `or` (a bound of 0 becomes infinite)", "src/aspire/transforms.py", "prior_bounds[k], device=device, dtype=self.dtype", "[prior_bounds[k][0] or -math.inf, prior_bounds[k][1] or math.inf], device=device, dtype=self.dtype", "C03.attach"),
     M("init_flow drops the flow dtype", _A, "data_transform=data_transform,\n            dtype=self.dtype,", "data_transform=data_transform,", "C03.attach"),
 ]
 NEUTRALS = [
